@@ -13,11 +13,12 @@ from .c19_semantics import _is_documented_writer, input_base
 
 PROP = "C19"
 LEVEL = "other"
-TECHNIQUE = "static analysis: comprehension-shape, unit-factor, rounding-idiom and statement-order (post-dominance) rules on the two input writers and their shared base"
+TECHNIQUE = "static analysis: abstract interpretation (finite-domain evaluation on model objects and model output files) of the two input writers and their shared rendering routine"
 EXPLANATION = (
-    "Static decision of the structural clauses of C19: (R1) the geometry is one atom_line(data, i) per i in "
-    "range(data.natom), unfiltered, newline-joined, stored after the user fields; (R2) the default atom line "
-    "of both programs takes the symbol from num2sym[data.atnums[i]] and prints the three components of "
+    "Static decision of the clauses of C19 that the code of the writers fixes for every object (first as "
+    "statement-shape rules, later replaced by evaluation, see below): (R1) the geometry is one atom line per atom, "
+    "in order, unfiltered, newline-joined; (R2) the default atom line "
+    "of both programs is the element symbol followed by the three components of "
     "data.atcoords[i] / angstrom in order; (R3) charge is rounded to the nearest integer (not truncated) and "
     "the multiplicity is round(|spinpol|) + 1; (R4) user-supplied fields are merged after every default, "
     "template and atom_line defaults apply only when the argument is None; (R5) run types map through the "
